@@ -51,7 +51,7 @@ func lockAnalysis(c *report.Ctx) *lockRun {
 	gr, _ := quitWgGoroutines(c)
 	for _, g := range gr {
 		k := "worker"
-		if g.Name() == "handle" {
+		if nm(g) == "handle" {
 			k = "handle"
 		}
 		lr.kind[g] = k
@@ -63,13 +63,20 @@ func lockAnalysis(c *report.Ctx) *lockRun {
 			lr.roots = append(lr.roots, f)
 		}
 	}
-	sort.Slice(lr.roots, func(i, j int) bool { return an.FuncKey(lr.roots[i]) < an.FuncKey(lr.roots[j]) })
+	sort.Slice(lr.roots, func(i, j int) bool { return an.CanonKeyOf(lr.roots[i]) < an.CanonKeyOf(lr.roots[j]) })
 	cfg := &lockset.Config{P: p, Acquire: map[*ssa.Function]string{}, Release: map[*ssa.Function]string{}, RootHeld: map[*ssa.Function][]string{}, Watch: map[*ssa.Function]string{}}
-	if f := p.Fn(pkgWallet, "NtfnsHandler", "suspend"); f != nil {
-		cfg.Acquire[f] = handlerToken
+	// the token changes hands where the rendezvous happens: the send on sigSuspend / sigResume (wherever that code lives)
+	cfg.AcquireAt = func(in ssa.Instruction) string {
+		if _, isCall := in.(*ssa.Call); !isCall && sendsOn(p, in, "sigSuspend") {
+			return handlerToken
+		}
+		return ""
 	}
-	if f := p.Fn(pkgWallet, "NtfnsHandler", "resume"); f != nil {
-		cfg.Release[f] = handlerToken
+	cfg.ReleaseAt = func(in ssa.Instruction) string {
+		if _, isCall := in.(*ssa.Call); !isCall && sendsOn(p, in, "sigResume") {
+			return handlerToken
+		}
+		return ""
 	}
 	for f, k := range lr.kind {
 		if k == "handle" {
